@@ -7,7 +7,9 @@ namespace scen_pool {
 
 enum { K_COAWAIT, K_COAWAIT_AWT_READY, K_COAWAIT_AWT_PENDING, K_RUN_FN, K_RUN_DETACHED, K_RUN_ASYNC, K_RESUME_SP, K_COUNT };
 struct Job { uint8_t kind, yields, where; uint8_t again = 0; uint8_t big = 0; uint8_t conc = 0; };   // conc (pool(pending awaitable)): the awaitable is resolved by a helper thread, possibly while the coroutine is still suspending on it   // big (run / run_detached): the closure is larger than the pool's small-object space (heap instance instead of in-place)   // again (co_await pool only): once on a worker the coroutine re-submits itself with co_await thread_pool::current()     // where: 0 submitted by the owner thread, 1 by a second submitter thread
-struct Prog { uint8_t workers; std::vector<Job> jobs; uint8_t stop_who; uint8_t stop_pos; uint8_t stop_yields; };
+struct Prog { uint8_t workers; std::vector<Job> jobs; uint8_t stop_who; uint8_t stop_pos; uint8_t stop_yields; uint8_t wait_first = 0; int rdv_a = -1, rdv_b = -1; };
+// wait_first: the owner waits for the result of every submission before it stops / destroys the pool (then nothing may be cancelled)
+// rdv_a/rdv_b: job a does not finish until job b has started (or the pool is being stopped): with >=2 workers b must get one of the others
 // stop_who: 0 destructor only, 1 owner calls stop() before job #stop_pos, 2 a pool job calls stop(), 3 owner stop() at the end then destructor
 
 inline Prog decode(hz::Reader &r, bool allow_self_stop) {
@@ -26,6 +28,13 @@ inline Prog decode(hz::Reader &r, bool allow_self_stop) {
     for (unsigned i = 0; i < n; i++) p.jobs[i].again = (uint8_t)(p.jobs[i].kind == K_COAWAIT && ((amask >> i) & 1));
     for (unsigned i = 0; i < n; i++) p.jobs[i].conc = (uint8_t)(p.jobs[i].kind == K_COAWAIT_AWT_PENDING && ((amask >> (i + 4)) & 1));
     for (unsigned i = 0; i < n; i++) p.jobs[i].big = (uint8_t)((p.jobs[i].kind == K_RUN_FN || p.jobs[i].kind == K_RUN_DETACHED || p.jobs[i].kind == K_RESUME_SP) && ((amask >> (i + 4)) & 1));     // (resume(suspend_point): the suspend point carries TWO coroutines)
+    uint8_t x = r.u8();     // trailing byte (older replay files keep their meaning)
+    p.wait_first = (uint8_t)((x & 1) && (p.stop_who == 0 || p.stop_who == 3));
+    if (((x >> 1) % 3) == 1 && p.workers >= 2 && n >= 2)
+        for (unsigned i = 0; i < n; i++) {
+            uint8_t k = p.jobs[i].kind;
+            if (k == K_COAWAIT || k == K_RUN_FN || k == K_RUN_DETACHED || k == K_RUN_ASYNC) { p.rdv_a = (int)i; p.rdv_b = (int)((i + 1) % n); break; }
+        }
     return p;
 }
 inline std::string describe(const Prog &p) {
@@ -33,7 +42,8 @@ inline std::string describe(const Prog &p) {
     static const char *sw[] = {"destructor only", "owner stop() before job #", "a pool job calls stop() after job #", "owner stop() after all jobs, then destructor"};
     hz::Desc d; d << "pool(" << (unsigned)p.workers << " workers); jobs:";
     for (auto &j : p.jobs) d << " [" << (j.where ? "2nd thread, " : "") << "yield*" << (unsigned)j.yields << ", " << kn[j.kind] << (j.again ? ", then co_await thread_pool::current()" : "") << (j.big ? (j.kind == K_RESUME_SP ? ", two coroutines in the suspend point" : ", 128-byte closure") : "") << (j.conc ? ", awaitable resolved by a helper thread" : "") << "]";
-    d << "; stop: " << sw[p.stop_who];
+    if (p.rdv_a >= 0) d << "; job #" << p.rdv_a << " keeps its worker until job #" << p.rdv_b << " has started";
+    d << "; stop: " << (p.wait_first ? "the owner waits for every result, then " : "") << sw[p.stop_who];
     if (p.stop_who == 1 || p.stop_who == 2) d << (unsigned)p.stop_pos;
     return d.s;
 }
@@ -62,7 +72,16 @@ struct Ctx {
     std::vector<std::unique_ptr<cocls::future<int>>> int_futs;     // run(fn) / run(async)
     std::vector<std::unique_ptr<cocls::future<int>>> gates;        // awaitables of K_COAWAIT_AWT_*
     std::vector<std::unique_ptr<cocls::future<void>>> vgates;      // parked coroutines of K_RESUME_SP
-    void mark_ran(int i) { JRec &r = j[(size_t)i]; r.ran++; r.on_worker = is_current(*pp); r.t_ran = hz::tick(); }
+    void mark_ran(int i) {
+        JRec &r = j[(size_t)i]; r.ran++; r.on_worker = is_current(*pp); r.t_ran = hz::tick();
+        hz::slot_add(14, 1L << (4 * i));          // (slot: visible to the polling job below without a harness data race)
+        if (i == p->rdv_a) {
+            // this job keeps its worker until job b has started (or the pool is being stopped): b has to get ANOTHER worker
+            hz::slot_add(15, 1);
+            while (!((hz::slot_get(14) >> (4 * p->rdv_b)) & 15) && !pp->is_stopped()) vrt::yield();
+        }
+    }
+    bool started(size_t i) const { return ((hz::slot_get(14) >> (4 * i)) & 15) != 0; }
     // a coroutine that was just cancelled or handed over typically looks at the pool again (is it stopped? can I
     // re-submit?): this must be possible wherever the library chose to resume it (e.g. not under the pool's lock)
     void touch_pool() { hz::slot_add(13, pp->is_stopped() ? 1 : 2); hz::slot_add(13, pp->any_enqueued() ? 1 : 2); }     // (slot: bookkeeping invisible to TSan)
@@ -182,8 +201,18 @@ inline void run(hz::Reader &rd, bool allow_self_stop) {
             }
         }
         if (p.stop_who == 1 && !c.t_stop_begin) { hz::upoints(p.stop_yields); c.t_stop_begin = hz::tick(); c.pool->stop(); c.t_stop_end = hz::tick(); }
-        if (p.stop_who == 3) { hz::upoints(p.stop_yields); c.t_stop_begin = hz::tick(); c.pool->stop(); c.t_stop_end = hz::tick(); c.pool->stop(); }
+        if (p.stop_who == 3 && !p.wait_first) { hz::upoints(p.stop_yields); c.t_stop_begin = hz::tick(); c.pool->stop(); c.t_stop_end = hz::tick(); c.pool->stop(); }
         second.join();
+        if (p.wait_first) {
+            // the usual way to use a pool: wait for the results, then stop / destroy it (stop_who 0 or 3)
+            for (size_t i = 0; i < c.j.size(); i++) {
+                if (c.co_done[i]) c.co_done[i]->sync();
+                if (c.co_done_b[i]) c.co_done_b[i]->sync();
+                if (c.int_futs[i]) c.int_futs[i]->sync();
+                if (c.j[i].kind == K_RUN_DETACHED) while (!c.started(i)) vrt::yield();
+            }
+            if (p.stop_who == 3) { c.t_stop_begin = hz::tick(); c.pool->stop(); c.t_stop_end = hz::tick(); c.pool->stop(); }
+        } else
         if (p.stop_who == 2) {
             // wait until the self-stopping job has finished before the pool object dies
             // (the job uses the pool object; destroying it under its feet would be a harness bug)
@@ -228,6 +257,7 @@ inline void run(hz::Reader &rd, bool allow_self_stop) {
                 if (!r.ran) r.cancelled = 1;       // observable only through the closure's destruction, checked below
             }
             HZ_CHECK(r.ran + r.cancelled == 1, "job %zu (kind %d): ran %d times and was cancelled %d times (exactly one of the two expected)", i, r.kind, r.ran, r.cancelled);
+            if (p.wait_first) HZ_CHECK(r.ran == 1 && r.cancelled == 0, "job %zu (kind %d) ran %d times and was cancelled %d times although the owner waited for every result before it stopped the pool", i, r.kind, r.ran, r.cancelled);
             if (r.kind == K_RESUME_SP && p.jobs[i].big) {
                 HZ_CHECK(c.co_done_b[i] && c.co_done_b[i]->ready() && r.ran_b == 1, "job %zu: the second coroutine carried by the suspend point handed to resume() ran %d times (every carried coroutine is handed to the pool)", i, r.ran_b);
                 if (!r.on_worker_b) HZ_CHECK(r.t_ran_b > c.t_stop_begin, "job %zu: the second coroutine of the suspend point handed to resume() ran outside the pool's workers although the pool had not been stopped yet", i);
@@ -256,9 +286,10 @@ inline void run(hz::Reader &rd, bool allow_self_stop) {
     const vrt::Stats &st = vrt::stats();
     hz::set_class(p.stop_who);
     hz::set_nontrivial(overlap || st.preempt_in_lib > 0);
+    hz::count(0, p.wait_first ? 1 : 0); hz::count(1, (uint64_t)hz::slot_get(15));
 }
 
 static const char *const class_names[] = {"stop:destructor", "stop:owner-mid-way", "stop:from-a-pool-job", "stop:twice"};
-static const char *const counter_names[] = {"c0"};
+static const char *const counter_names[] = {"cases_where_the_owner_waits_for_every_result", "rendezvous_jobs_that_ran"};
 
 } // namespace scen_pool
